@@ -355,6 +355,80 @@ def t_select_mix(rng):
     return dict(name="select_mix", src=src, confluent=False, size=dict(variant=variant, t=t), nprocs=3)
 
 
+def t_selective_receive(rng, m=None):
+    """Per-sender FIFO must survive selective (filtered) receives: one sender queues m messages and a
+    sentinel; the receiver first waits for the sentinel with a filter (so everything is queued behind
+    each other), takes 1-3 messages out of the MIDDLE of its mailbox with filters, then receives the
+    rest unfiltered. The rest must still come out in send order."""
+    m = m or rng.randint(3, 8)
+    picks = rng.sample(range(m), rng.randint(1, min(3, m - 1)))
+    vals = [100 + i for i in range(m)]
+    via_proc = rng.random() < 0.5
+    body = "! [#'int { =999 => Ok }] =last"
+    for n, j in enumerate(picks):
+        body += ", ! [#'int { =%d => Ok }] =f%d" % (vals[j], n)
+    rest = [v for i, v in enumerate(vals) if i not in picks]
+    for n in range(len(rest)):
+        body += ", !#'int =a%d" % n
+    names = ["f%d" % n for n in range(len(picks))] + ["a%d" % n for n in range(len(rest))] + ["last"]
+    body += ", [" + ", ".join(names) + "]"
+    src = "p = @#{ %s },\n" % body
+    sends = ", ".join("%d p" % v for v in vals + [999])
+    src += ("s = @#{ %s, Ok },\n" % sends) if via_proc else (sends + ",\n")
+    src += "!p"
+    expected = [vals[j] for j in picks] + rest + [999]
+
+    def check(s):
+        st, res = s.procs.get("0.0", ("missing", "-"))
+        if st != "done":
+            return ["receiver 0.0 did not finish: %s" % st]
+        v = res[1] if isinstance(res, list) and len(res) > 1 else None
+        got = [as_int(x) for x in v[3:]] if isinstance(v, list) and v and v[0] == "t" else None
+        probs = []
+        if got != expected:
+            probs.append("receiver 0.0: per-sender order violated after a selective receive: got %s, expected %s" % (got, expected))
+        if s.mailboxes.get("0.0", 0):
+            probs.append("receiver 0.0: %d messages left in the mailbox" % s.mailboxes["0.0"])
+        return probs
+
+    return dict(name="selective_receive", src=src, confluent=True, size=dict(m=m, picks=len(picks), via_proc=int(via_proc)),
+                nprocs=2 + via_proc, check=check)
+
+
+def t_stale_failure_then_spawn(rng):
+    """A select on a process p and a timeout completes by the timeout (p is still blocked); p then gets
+    its go message and FAILS; the former awaiter meanwhile spawns (it is parked between its SpawnAction
+    and the NotifySpawn) and awaits the new processes. The late failure notification of p is stale: the
+    former awaiter no longer awaits p and must run to its normal result (C15), and must not be woken
+    out of `spawning` (C04: a process leaves `spawning` only through its NotifySpawn)."""
+    t = rng.choice([0, 1, 5])
+    k = rng.randint(1, 3)
+    fail = rng.choice(["[1, 0] __integer_divide__", "[g, 0] __integer_modulo__"])
+    inner = rng.random() < 0.4          # the former awaiter is a spawned process instead of the main one
+    body = "! [p, %d] =a, 1 p" % t
+    for i in range(k):
+        body += ", q%d = @#{ %d }" % (i, 7 + i)
+    body += ", [" + ", ".join("!q%d" % i for i in range(k)) + "]"
+    src = "p = @#{ !#'int =g, %s },\n" % fail
+    if inner:
+        src += "m = @#{ %s },\n!m" % body
+    else:
+        src += body
+    want = ["ok", ["t", "-", ["-"] * k] + [["i", str(7 + i)] for i in range(k)]]
+
+    def check(s):
+        probs = []
+        st, res = s.procs.get("0.0", ("missing", "-"))
+        if st != "failed":
+            probs.append("the failing process 0.0 is %s %s, expected failed" % (st, unparse(res)))
+        if s.result != [want]:
+            probs.append("the former awaiter's result is %s, expected %s (it does not await the failed process any more)" % (unparse(s.result), unparse(want)))
+        return probs
+
+    return dict(name="stale_failure_then_spawn", src=src, confluent=False, size=dict(t=t, spawns=k, inner=int(inner)),
+                nprocs=2 + k + inner, check=check, tick=True)
+
+
 def t_resource_handoff(rng):
     """open / use / send / spawn-capture / terminate histories (C14 exploration, F10 shows here)."""
     awaited = rng.random() < 0.5
@@ -370,7 +444,20 @@ def t_resource_handoff(rng):
 
 
 # ---- failing member (C15) ---------------------------------------------------------------------
-FAIL_SITES = ["div0", "effect_err", "open_err", "not_owner", "filter_send", "filter_spawn", "filter_select"]
+FAIL_SITES = ["div0", "effect_err", "open_err", "not_owner", "filter_send", "filter_spawn", "filter_select", "builtin_domain"]
+# builtin calls outside their domain, incl. boundary magnitudes (2^61, 2^63-1, 2^64): each is a runtime
+# InvalidArgument of the calling process on the unchanged tree - never a worker panic (C15)
+BUILTIN_DOMAIN_ERRORS = [
+    "[0xff, 2305843009213693952, 0, 8] __binary_get__", "[0xff, 9223372036854775807, 0, 8] __binary_get__",
+    "[0xff, 1, 0, 8] __binary_get__", "[0xff, 0, 0, 9] __binary_get__", "[0xff, 0, 7, 8] __binary_get__",
+    "[0xff, 2305843009213693952, 0, 8, 1] __binary_set__", "[0xff, 0, 0, 64, 1] __binary_set__",
+    "[0xff, 5, 0, 8, 1] __binary_set__", "[0xffff, 3, 1] __binary_slice__",
+    "[0xffff, 1, 9223372036854775807] __binary_slice__", "[0xffff, 18446744073709551616] __binary_repeat__",
+    "[0xffff, -1] __binary_repeat__", "[7, 0] __integer_modulo__", "-1 __integer_sqrt__",
+]
+
+
+_BD_NEXT = 0
 
 
 def t_failing_member(rng, site=None, when=None):
@@ -384,6 +471,11 @@ def t_failing_member(rng, site=None, when=None):
     pre = ""
     if site == "div0":
         fbody = "!#'int =g, [g, 0] __integer_divide__"
+    elif site == "builtin_domain":
+        # every entry of the pool in turn (not a random draw: each boundary call is exercised every run)
+        global _BD_NEXT
+        fbody = "!#'int =g, " + BUILTIN_DOMAIN_ERRORS[_BD_NEXT % len(BUILTIN_DOMAIN_ERRORS)]
+        _BD_NEXT += 1
     elif site == "effect_err":
         fbody = "!#'int =g, r = 1 __test_open__, [r, 666] __test_use__"
     elif site == "open_err":
@@ -448,8 +540,9 @@ def f71_shape(s):
     return s.ok and not s.panics and not s.errs and "(err StackUnderflow" in s.line
 
 
-CONFLUENT = [t_await_tree, t_await_chain, t_pipeline, t_fan_out, t_request_reply, t_late_await, t_await_then_spawn]
-MESSAGE_SCENARIOS = [t_fan_in, t_fan_out, t_pipeline, t_request_reply, t_await_chain, t_late_await, t_select_mix]
+CONFLUENT = [t_await_tree, t_await_chain, t_pipeline, t_fan_out, t_request_reply, t_late_await, t_await_then_spawn, t_selective_receive]
+MESSAGE_SCENARIOS = [t_fan_in, t_fan_out, t_pipeline, t_request_reply, t_await_chain, t_late_await, t_select_mix, t_selective_receive,
+                     t_stale_failure_then_spawn]
 
 
 # ----------------------------------------------------------------------------- shrinking
@@ -623,7 +716,7 @@ def explore(ctx, runner, scenarios, nsched, judge, route=None, opts_for=None, ex
         meta.append((pi, (1, 1000), "fair"))
         for k in range(nsched):
             w, q = random_cfg(rng)
-            sched = "" if rng.random() < 0.08 else random_schedule(rng, tick=tp["name"] == "select_mix")
+            sched = "" if rng.random() < 0.08 else random_schedule(rng, tick=tp.get("tick", tp["name"] == "select_mix"))
             opts = opts_for(tp, rng) if opts_for else ""
             lines.append(case_line(tp["src"], w, q, sched, opts))
             meta.append((pi, (w, q), sched))
